@@ -205,6 +205,119 @@ func run(r *Rng, tier string, n int) {
 			}
 		}
 	}
+	// letter case means A-Z only: every octet value against its 0x20-flipped twin, in the owner
+	// and in an embedded name; escaped backslashes in front of letters
+	for b := 0; b < 256; b++ {
+		for _, where := range []int{0, 1} {
+			l1 := []byte{'x', byte(b), 'y'}
+			l2 := []byte{'x', byte(b) ^ 0x20, 'y'}
+			n1 := ShowLabel(l1) + ".example."
+			n2 := ShowLabel(l2) + ".example."
+			var a, c dns.RR
+			if where == 0 {
+				a = &dns.A{Hdr: dns.RR_Header{Name: n1, Rrtype: dns.TypeA, Class: 1, Ttl: 5}, A: []byte{1, 2, 3, 4}}
+				c = &dns.A{Hdr: dns.RR_Header{Name: n2, Rrtype: dns.TypeA, Class: 1, Ttl: 7}, A: []byte{1, 2, 3, 4}}
+			} else {
+				a = &dns.MX{Hdr: dns.RR_Header{Name: "o.example.", Rrtype: dns.TypeMX, Class: 1, Ttl: 5}, Preference: 1, Mx: n1}
+				c = &dns.MX{Hdr: dns.RR_Header{Name: "o.example.", Rrtype: dns.TypeMX, Class: 1, Ttl: 7}, Preference: 1, Mx: n2}
+			}
+			isLetter := byte(b)|0x20 >= 'a' && byte(b)|0x20 <= 'z'
+			got := isDup(a, c)
+			st["octet_fold_checked"]++
+			if got != "ok:"+Btoa(isLetter) {
+				ta, _ := RRText(a)
+				tc, _ := RRText(c)
+				Viol("C20/case-fold-beyond-letters", "IsDuplicate="+got+" for names differing in octet "+Itoa(b)+" vs "+Itoa(b^0x20), map[string]string{"a": ta, "b": tc})
+			}
+			if b%8 == 0 || b >= 0x40 && b < 0x80 {
+				emit(a, c, got)
+			}
+			// Dedup groups by text identical up to owner-name case and TTL
+			if where == 0 {
+				rrs := []dns.RR{dns.Copy(a), dns.Copy(c)}
+				Emit("normalize", []string{Hs(a.String())}, Hs(dns.VerifNormalizedString(a)))
+				out := dns.Dedup(rrs, nil)
+				want := 2
+				if isLetter {
+					want = 1
+				}
+				if len(out) != want || want == 1 && out[0].Header().Ttl != 5 {
+					Viol("C20/Dedup/case-grouping", "Dedup of two records whose owners differ in octet "+Itoa(b)+"/"+Itoa(b^0x20)+" keeps "+Itoa(len(out)), map[string]string{"a": a.String(), "b": c.String()})
+				}
+			}
+		}
+	}
+	for _, pre := range []string{"a\\\\", "\\\\", "a\\\\\\.", "\\046", "a\\.\\\\"} {
+		n1 := pre + "B.example."
+		n2 := pre + "b.example."
+		a := &dns.A{Hdr: dns.RR_Header{Name: n1, Rrtype: dns.TypeA, Class: 1, Ttl: 300}, A: []byte{1, 2, 3, 4}}
+		c := &dns.A{Hdr: dns.RR_Header{Name: n2, Rrtype: dns.TypeA, Class: 1, Ttl: 100}, A: []byte{1, 2, 3, 4}}
+		if _, ok := dns.IsDomainName(n1); !ok {
+			continue
+		}
+		Emit("normalize", []string{Hs(a.String())}, Hs(dns.VerifNormalizedString(a)))
+		// is the letter after the prefix a plain (unescaped) octet of the label?
+		wa, oka := canonWire(a)
+		wc, okc := canonWire(c)
+		if !oka || !okc {
+			continue
+		}
+		same := bytes.Equal(wa, wc)
+		out := dns.Dedup([]dns.RR{dns.Copy(a), dns.Copy(c)}, nil)
+		st["escaped_backslash_checked"]++
+		if same && (len(out) != 1 || out[0].Header().Ttl != 100) || !same && len(out) != 2 {
+			Viol("C20/Dedup/escaped-backslash-case", "Dedup of "+n1+" / "+n2+" keeps "+Itoa(len(out)), map[string]string{"a": a.String(), "b": c.String()})
+		}
+		if got := isDup(a, c); got != "ok:"+Btoa(same) {
+			Viol("C20/escaped-backslash-case", "IsDuplicate="+got+" but canonical wire equal="+Btoa(same), map[string]string{"a": a.String(), "b": c.String()})
+		}
+	}
+	// APL from the wire: an IPv4 prefix and the IPv4-mapped IPv6 prefix of the same length are different data
+	for _, plen := range []int{0, 8, 24, 32} {
+		v4 := []byte{0, 1, byte(plen), 3, 192, 0, 2}
+		v6 := append([]byte{0, 2, byte(plen), 15, 0, 0, 0, 0, 0, 0, 0, 0, 0, 0, 0xff, 0xff}, 192, 0, 2)
+		mk := func(rd []byte) dns.RR {
+			w := append([]byte{1, 'x', 0, 0, 42, 0, 1, 0, 0, 0, 9, byte(len(rd) >> 8), byte(len(rd))}, rd...)
+			rr, _, err := dns.UnpackRR(w, 0)
+			if err != nil {
+				return nil
+			}
+			return rr
+		}
+		a, c := mk(v4), mk(v6)
+		if a == nil || c == nil {
+			continue
+		}
+		st["apl_family_checked"]++
+		got := isDup(a, c)
+		emit(a, c, got)
+		if got != "ok:false" {
+			ta, _ := RRText(a)
+			tc, _ := RRText(c)
+			Viol("C20/APL/family-ignored", "APL prefixes of different address family reported as duplicates", map[string]string{"a": ta, "b": tc})
+		}
+	}
+	// slices of different length
+	{
+		a := &dns.TXT{Hdr: dns.RR_Header{Name: "t.", Rrtype: dns.TypeTXT, Class: 1}, Txt: []string{"a", "b"}}
+		c := &dns.TXT{Hdr: dns.RR_Header{Name: "t.", Rrtype: dns.TypeTXT, Class: 1}, Txt: []string{"a"}}
+		for _, p := range [][2]dns.RR{{a, c}, {c, a}} {
+			got := isDup(p[0], p[1])
+			emit(p[0], p[1], got)
+			if got != "ok:false" {
+				Viol("C20/TXT/length-ignored", "TXT records with a different number of strings: "+got, nil)
+			}
+		}
+		s1, _ := dns.NewRR("s. 1 IN SVCB 1 . alpn=h2")
+		s2, _ := dns.NewRR("s. 1 IN SVCB 1 . alpn=h2 port=53")
+		for _, p := range [][2]dns.RR{{s1, s2}, {s2, s1}} {
+			got := isDup(p[0], p[1])
+			emit(p[0], p[1], got)
+			if got != "ok:false" {
+				Viol("C20/SVCB/length-ignored", "SVCB records with a different number of parameters: "+got, nil)
+			}
+		}
+	}
 	// Dedup
 	for i := 0; i < ndedup; i++ {
 		k := 1 + r.Intn(8)
